@@ -222,7 +222,8 @@ func EncodeTime(t time.Time, f TimeForm) *dt.Node {
 	}
 	switch f {
 	case GenZ:
-		return dt.Prim(0, 24, []byte(t.Format("20060102150405Z")))
+		// GeneralizedTime carries fractions of a second when the instant has them
+		return dt.Prim(0, 24, []byte(t.Format("20060102150405.999999999Z")))
 	case UTCPlus:
 		l := t.Add(time.Hour)
 		if l.Year() < 1950 || l.Year() >= 2050 {
@@ -391,7 +392,7 @@ func (v *OCSPView) SetSingleTimes(this time.Time, next *time.Time) error {
 		case isTime(c) && !done:
 			out = append(out, dt.Prim(0, 24, []byte(this.UTC().Format("20060102150405Z"))))
 			if next != nil {
-				out = append(out, dt.Cons(2, 0, dt.Prim(0, 24, []byte(next.UTC().Format("20060102150405Z")))))
+				out = append(out, dt.Cons(2, 0, dt.Prim(0, 24, []byte(next.UTC().Format("20060102150405.999999999Z")))))
 			}
 			done = true
 		case c.Class == 2 && c.Tag == 0 && c.Constructed && done:
